@@ -74,6 +74,8 @@ var guardedTable = []guardedField{
 	{"pkg/rpc", "NetworkMachine", "tracers", "tracersMx", false, "TracerBind/Detach"},
 	{"pkg/rpc", "NetworkMachine", "handlers", "handlersMx", false, "bind/detach"},
 	{"pkg/rpc", "NetworkMachine", "logEntries", "logEntriesLock", false, "log()"},
+	{"pkg/rpc", "NetworkMachine", "schema", "schemaMx", false, "replaced by updateStatesSchema on hello and on every RemoteSchemaChange"},
+	{"pkg/rpc", "NetworkMachine", "stateNames", "schemaMx", false, "replaced by updateStatesSchema"},
 }
 
 // Subscription indexes are additionally protected by the owner's outer lock:
@@ -92,6 +94,14 @@ func init() {
 	for _, f := range []string{"whenQueue", "whenQueueEnds"} {
 		outerLockAlt["pkg/machine.Subscriptions."+f] = []string{"pkg/machine.Machine.queueMx", "pkg/rpc.NetworkMachine.clockMx"}
 	}
+}
+
+// writerWAlt: a second lock that every writer of the field holds in W mode
+// (validated from the program by validWAlts, not assumed); a reader holding
+// it in R or W mode is therefore excluded from every writer.
+var writerWAlt = map[string][]string{
+	"pkg/rpc.NetworkMachine.schema":     {"pkg/rpc.NetworkMachine.clockMx"},
+	"pkg/rpc.NetworkMachine.stateNames": {"pkg/rpc.NetworkMachine.clockMx"},
 }
 
 // Functions in which the object is not yet shared (constructors), or that
@@ -242,6 +252,11 @@ func (c *Ctx) checkGuardedFull(la *LockAnalysis, rule string, filter func(a acce
 						good = true
 					}
 				}
+				for _, alt := range c.validWAlts(la, a.FID) {
+					if h := hr.held[alt]; h == 'W' || h == 'R' {
+						good = true
+					}
+				}
 			}
 			if good {
 				if r.held == "" {
@@ -285,8 +300,10 @@ func init() {
 		})
 		c.floor("C12.guard", 150)
 		c.rule("C12.esc", "a slice or map loaded from a guarded field is used only inside the critical section (or cloned): it is not returned to unlocked callers nor used after the lock is released, because writers append/delete in place")
+		c.rule("C12.whole", "the fields exempt from C12.esc because their backing store is replaced wholesale (state names, schema, machTime) are never written in place (no element store, map update or delete outside constructors)")
 		c.checkEscapes(la, "C12.esc")
 		c.floor("C12.esc", 40)
+		c.floor("C12.whole", 5)
 		c.note("lock analysis contexts: %d", len(la.sums))
 		if d := os.Getenv("AMCHECK_LOCKDUMP"); d != "" {
 			la.debugDump(d)
@@ -310,6 +327,15 @@ var escapeExempt = map[string]string{
 	"pkg/machine.Machine.groupsOrder":      "configuration field",
 	"pkg/machine.Machine.clock":            "handed to the subscription manager by design (C06.alias); ticks are read under activeStatesMx",
 	"pkg/rpc.NetworkMachine.machTime":      "replaced wholesale by updateClock",
+	"pkg/rpc.NetworkMachine.schema":        "replaced wholesale by updateStatesSchema",
+	"pkg/rpc.NetworkMachine.stateNames":    "replaced wholesale by updateStatesSchema",
+}
+
+// wholesaleFields: the escapeExempt entries whose reason is that the backing
+// store is never written in place; checked from the program (C12.whole).
+var wholesaleFields = []string{
+	"pkg/machine.Machine.stateNames", "pkg/machine.Machine.stateNamesExport", "pkg/machine.Machine.schema",
+	"pkg/rpc.NetworkMachine.machTime", "pkg/rpc.NetworkMachine.schema", "pkg/rpc.NetworkMachine.stateNames",
 }
 
 func isRefType(t types.Type) bool {
@@ -377,6 +403,33 @@ func (c *Ctx) checkEscapes(la *LockAnalysis, rule string) {
 			if len(parts) == 3 {
 				already[parts[0]+"|"+parts[2]] = true
 			}
+		}
+	}
+	// the wholesale exemption is only sound while nobody writes the backing store in place
+	{
+		inv := map[string]*types.Var{}
+		for f, id := range fields {
+			inv[id] = f
+		}
+		for _, id := range wholesaleFields {
+			fv := inv[id]
+			if fv == nil {
+				continue
+			}
+			bad := ""
+			var pos token.Pos
+			for _, w := range c.writesOfField(fv) {
+				if w.Kind == "assign" {
+					continue
+				}
+				if _, ex := lockExemptFuncs[funcKey(topFunc(w.Fn))]; ex {
+					continue
+				}
+				if bad == "" {
+					bad, pos = w.Kind+" in "+funcKey(w.Fn), w.Instr.Pos()
+				}
+			}
+			c.check(bad == "", "C12.whole", id+" is only ever replaced wholesale", pos, "in-place write ("+bad+"): headers handed out by getters alias storage that is now mutated")
 		}
 	}
 	type agg struct {
@@ -455,6 +508,11 @@ func (c *Ctx) checkEscapes(la *LockAnalysis, rule string) {
 						altOK := false
 						for _, alt := range c.validAlts(la, fid) {
 							if hr.held[alt] == 'W' {
+								altOK = true
+							}
+						}
+						for _, alt := range c.validWAlts(la, fid) {
+							if hr.held[alt] != 0 {
 								altOK = true
 							}
 						}
@@ -549,6 +607,55 @@ func (c *Ctx) validAlts(la *LockAnalysis, fid string) []string {
 	for id, alts := range outerLockAlt {
 		for _, alt := range alts {
 			if !bad[id+"|"+alt] {
+				m[id] = append(m[id], alt)
+			}
+		}
+	}
+	return m[fid]
+}
+
+var wAltCache = map[*LockAnalysis]map[string][]string{}
+
+// validWAlts returns the writerWAlt locks of fid that every writer of fid
+// (outside constructors) holds in W mode on every analysed context.
+func (c *Ctx) validWAlts(la *LockAnalysis, fid string) []string {
+	if len(writerWAlt[fid]) == 0 {
+		return nil
+	}
+	if m, ok := wAltCache[la]; ok {
+		return m[fid]
+	}
+	m := map[string][]string{}
+	wAltCache[la] = m
+	fields, _ := c.guardedFields()
+	sel := map[*types.Var]string{}
+	for f, id := range fields {
+		if len(writerWAlt[id]) > 0 {
+			sel[f] = id
+		}
+	}
+	bad := map[string]bool{}
+	writers := map[string]int{}
+	for _, a := range la.accesses(sel) {
+		if !a.Write {
+			continue
+		}
+		if _, ex := lockExemptFuncs[funcKey(topFunc(a.Fn))]; ex {
+			continue
+		}
+		writers[a.FID]++
+		for _, hr := range a.Held {
+			for _, alt := range writerWAlt[a.FID] {
+				if hr.held[alt] != 'W' && !bad[a.FID+"|"+alt] {
+					bad[a.FID+"|"+alt] = true
+					c.note("writer-held alternative %s disabled for %s: writer %s runs without it in W mode (context %s, held %s)", shortLock(alt), a.FID, funcKey(a.Fn), la.chain(hr.ctx), hr.held)
+				}
+			}
+		}
+	}
+	for id, alts := range writerWAlt {
+		for _, alt := range alts {
+			if !bad[id+"|"+alt] && writers[id] > 0 {
 				m[id] = append(m[id], alt)
 			}
 		}
